@@ -5,6 +5,7 @@ go 1.25.7
 require (
 	github.com/anyproto/any-store v0.4.7
 	github.com/anyproto/any-sync v0.0.0
+	github.com/golang/snappy v1.0.0
 	github.com/ipfs/go-cid v0.6.2
 	github.com/multiformats/go-multihash v0.2.3
 	go.uber.org/zap v1.28.0
@@ -34,7 +35,6 @@ require (
 	github.com/gobwas/glob v0.2.3 // indirect
 	github.com/goccy/go-graphviz v0.2.10 // indirect
 	github.com/golang/freetype v0.0.0-20170609003504-e2365dfdc4a0 // indirect
-	github.com/golang/snappy v1.0.0 // indirect
 	github.com/google/uuid v1.6.0 // indirect
 	github.com/hashicorp/yamux v0.1.2 // indirect
 	github.com/huandu/skiplist v1.2.1 // indirect
